@@ -6,7 +6,8 @@
 \*   L  trees:    every leaf of the exhaustive leaf family, wrapped up to Deep times into
 \*                not / and / or (BFS); invariant SemLaws; emits every tree as a query
 \*   R  random:   trees of depth <= 2, fan-out <= 3 drawn from a vector of random numbers with
-\*                prefix, orderby, limit, offset and a randomly styled text (simulation)
+\*                prefix, orderby, limit, offset and a randomly styled text, and a character
+\*                string of 7..30 characters with its predicted token list (simulation)
 EXTENDS QueryLang, Json
 
 CONSTANTS MaxLen, Deep, Emit
@@ -119,14 +120,17 @@ SemLaws ==
 
 \* ------------------------------------------------------------------ R: random trees
 RVec(seed) == [i \in 1..RVLen |-> RandomElement(0..9999)]
+\* a longer character string (7..30 characters, plain characters and escapes more likely) from the same numbers
+LongStr(rv) == [i \in 1..(7 + (rv[RVLen] % 24)) |-> Nth(<<1, 1, 1, 2, 2, 3, 4, 4, 5, 5, 6, 7, 8, 9>>, rv[i] + rv[i + 40])]
 InitR == str = <<>> /\ ast = NoCondition /\ n = 0
 NextR == /\ n' = n + 1
          /\ UNCHANGED <<str, ast>>
          /\ \E rv \in {RVec(n)} :
               LET a == Build(rv, 1, 0)
                   b == IF rv[G0 + 6] % 25 = 0 THEN NoCondition ELSE a
-              IN Out(QScript(b, Nth(Prefixes, rv[G0 + 1]), Nth(OrderBys, rv[G0 + 2]), Nth(Limits, rv[G0 + 3]),
-                             Nth(Limits, rv[G0 + 4]), rv, 1, rv[G0 + 6]))
+              IN /\ Out(QScript(b, Nth(Prefixes, rv[G0 + 1]), Nth(OrderBys, rv[G0 + 2]), Nth(Limits, rv[G0 + 3]),
+                                Nth(Limits, rv[G0 + 4]), rv, 1, rv[G0 + 6]))
+                 /\ Out(TokVector(LongStr(rv)))
 
 SpecS == InitS /\ [][NextS]_vars
 SpecL == InitL /\ [][NextL]_vars
